@@ -962,6 +962,54 @@ def _is_mutable_literal(v):
         or (isinstance(v, ast.Call) and isinstance(v.func, ast.Attribute) and v.func.attr in ("defaultdict", "OrderedDict", "deque"))
 
 
+_ATTR_WRITERS = {}
+
+
+def _attr_writers(index):
+    r = _ATTR_WRITERS.get(id(index))
+    if r is None:
+        r = {}
+        for fi in index.functions.values():
+            for w in writes_in(fi.node):
+                if w.kind in ("store", "del", "augstore"):
+                    r.setdefault(w.attr, set()).add(fi.qualname)
+        _ATTR_WRITERS[id(index)] = r
+    return r
+
+
+def uninvalidated_memo_rule(index, rep, rid, modules):
+    """(e) a value computed from the object graph and parked on an object under `if not hasattr(obj, "_a")` is a cache
+    with no invalidation unless some OTHER function stores or deletes `_a`: once written it is served for ever,
+    whatever happens to the lengths / children it was computed from."""
+    n = 0
+    wr = None
+    for m in modules:
+        for fi in index.functions_in_module(m):
+            for st in walk_no_nested(fi.node):
+                if not isinstance(st, ast.If):
+                    continue
+                t = st.test
+                neg = isinstance(t, ast.UnaryOp) and isinstance(t.op, ast.Not)
+                c = t.operand if neg else t
+                if not (isinstance(c, ast.Call) and call_name(c) == "hasattr" and len(c.args) == 2 and isinstance(c.args[1], ast.Constant) and isinstance(c.args[1].value, str)):
+                    continue
+                a = c.args[1].value
+                body = st.body if neg else st.orelse
+                asg = [x for b in body for x in ast.walk(b) if isinstance(x, ast.Assign) and any(isinstance(tg, ast.Attribute) and tg.attr == a and norm(tg.value) == norm(c.args[0]) for tg in x.targets)]
+                if not asg:
+                    continue
+                v = asg[0].value
+                computed = isinstance(v, ast.Call) and isinstance(v.func, ast.Attribute) and not (call_name(v) in ("list", "dict", "set", "OrderedDict"))
+                if not computed:
+                    continue        # lazy creation of an empty container / a default, not a cached result
+                n += 1
+                wr = wr or _attr_writers(index)
+                others = sorted(q for q in wr.get(a, ()) if q != fi.qualname)
+                rep.check(bool(others), rid, fi.qualname, "`%s` cached under hasattr() and never invalidated" % a, fn_where(fi, st), "",
+                          "%s stores `%s` the first time it is asked (`if not hasattr(%s, '%s')`) and no other function in the repository ever writes or deletes `%s`: the cached result is served for ever, so after an edge length or the children below the node change, the answer is still the one computed for the old tree" % (fi.qualname, norm_stmt(asg[0])[:60], norm(c.args[0]), a, a))
+    return n
+
+
 def foreign_private_rule(index, rep, rid, modules):
     """(d) a function that takes a local alias of ANOTHER object's private container (`x = obj._field`, obj not self,
     `_field` not a field of the function's own class) reads it only: popping from / appending to the alias changes the
@@ -993,6 +1041,7 @@ def shared_state_rule(index, rep, rid, modules):
     class nor handed on uncopied (stored on an instance, passed as an argument, returned); (c) no function mutates a
     module-level mutable container."""
     n = foreign_private_rule(index, rep, rid, modules)
+    n += uninvalidated_memo_rule(index, rep, rid, modules)
     for m in modules:
         mod = index.module(m)
         for f in index.functions_in_module(m):
